@@ -20,7 +20,7 @@ import re
 
 from . import common as C
 
-HDR = """From Coq Require Import List Arith Bool NArith.
+HDR = """From Coq Require Import List Arith Bool NArith String Ascii.
 Import ListNotations.
 From TF Require Import Base.Hier Base.Ty Parse.Lang Parse.Tok Parse.TypeText Uri.Uri.
 Definition eres (r : res ty) : list nat :=
@@ -38,17 +38,29 @@ Definition same (t : ty) (r : list nat) : list nat :=
   if name_eqb r (0 :: ty_enc t) then [10] else r.
 (* results are printed as binary numbers: printing unary nat literals is slow *)
 Definition nn (l : list nat) : list N := map N.of_nat l.
-Definition st (l : list N) : list nat := map N.to_nat l.
+(* strings are written as Coq string literals (lexed natively; numeric list
+   literals are slow to parse); "~123;" stands for code point 123 *)
+Fixpoint sdec (s : string) (num : option nat) : list nat :=
+  match s with
+  | EmptyString => []
+  | String c r =>
+      let n := nat_of_ascii c in
+      match num with
+      | None => if n =? 126 then sdec r (Some 0) else n :: sdec r None
+      | Some k => if n =? 59 then k :: sdec r None else sdec r (Some (10 * k + (n - 48)))
+      end
+  end.
+Definition sd (s : string) : list nat := sdec s None.
 Definition same_s (impl model : list nat) : list nat := if name_eqb impl model then [10] else model.
 (* the implementation's URI and text are passed in and compared here; the
    model's value is printed only when they differ (printing is the slow part) *)
-Definition obs_ty L ns canon (c : ty * (list N * list N)) : list (list N) :=
-  let (t, io) := c in let (iu, it) := io in map nn (
+Definition obs_ty L ns canon (c : ty * (nat * string * string)) : list (list N) :=
+  let '(t, (fl, iu, it)) := c in map nn (
   let u := uri L ns canon t in
-  [ same_s (st iu) (eopt u);
+  [ same_s (if fl =? 0 then 0 :: sd iu else [fl]) (eopt u);
     match u with Some s => same t (eures (parse_type_uri L s)) | None => [9] end;
     match u with Some s => same t (eures (parse_type_uri_pinned L s)) | None => [9] end;
-    same_s (st it) (text_std L t);
+    same_s (sd it) (text_std L t);
     same t (eres (parse_type L (text_std L t)));
     same t (eres (parse_type_pinned L (text_std L t)));
     [b2n (uri_domb L t); b2n (text_domb L t)] ]).
@@ -87,9 +99,20 @@ def cps(s: str) -> list[int]:
     return [ord(c) for c in s]
 
 
+def coq_lit(s: str) -> str:
+    out = []
+    for ch in s:
+        o = ord(ch)
+        if 32 <= o < 126 and ch != '"':
+            out.append(ch)
+        else:
+            out.append(f"~{o};")
+    return '"' + "".join(out) + '"%string'
+
+
 def coq_str(s: str) -> str:
-    # binary literals, converted inside Coq: parsing unary nat literals is slow
-    return "(st " + C.coq_list(cps(s)) + "%N)"
+    # a Coq string literal decoded inside Coq: numeric list literals are slow to parse
+    return "(sd " + coq_lit(s) + ")"
 
 
 def ty_enc(t) -> list[int]:
@@ -652,7 +675,8 @@ class Block:
                f"Definition CN_{i} : list ty := {C.coq_list(self.canon_model, C.ty_coq)}."]
         def case(t):
             iu, it = self.impl_obs[repr(t)]
-            return f"({C.ty_coq(t)}, ({C.coq_list(iu)}%N, {C.coq_list(it)}%N))"
+            us = "".join(map(chr, iu[1:]))
+            return f"({C.ty_coq(t)}, ({iu[0]}, {coq_lit(us)}, {coq_lit(''.join(map(chr, it)))}))"
         txt.append(f"Eval vm_compute in map (obs_ty {L} {ns} CN_{i}) {C.coq_list(self.types, case)}.")
         txt.append(f"Eval vm_compute in map (obs_sty {L}) {C.coq_list(self.stys, sty_coq)}.")
         txt.append(f"Eval vm_compute in map (obs_str {L}) {C.coq_list(self.strings, coq_str)}.")
@@ -750,9 +774,6 @@ def exhaustive_blocks(rng, tier):
             seeds=[t for t in ts if t[1]]))
         ts = enum_types(e2, [5, 6, 7, 4], 2)
         out.append(make_block(rng, e2, 0, 0, 0, 0, "exhaustive depth 2 over A,K/3,F/1,Product", types=ts,
-            seeds=[t for t in ts if t[1]]))
-        ts = enum_types(e2, [5, 6], 3)
-        out.append(make_block(rng, e2, 0, 0, 0, 0, "exhaustive depth 3 over A,K/3", types=ts,
             seeds=[t for t in ts if t[1]]))
         ts = enum_types(e1, [5, 7, 8], 3)
         out.append(make_block(rng, e1, 0, 0, 0, 0, "exhaustive depth 3 over A,F/1,G/2", types=ts,
@@ -1221,7 +1242,7 @@ def main(tier: str, seed: int, replay: str | None = None) -> int:
     rng = random.Random(seed)
     blocks = corpus_blocks(rng) + exhaustive_blocks(rng, tier)
     if tier == "quick":
-        nl, nt, ns_, nf, nu, cap = 56, 22, 14, 26, 12, 120
+        nl, nt, ns_, nf, nu, cap = 90, 24, 14, 28, 12, 120
     else:
         nl, nt, ns_, nf, nu, cap = 220, 40, 25, 50, 20, 300
     for i in range(nl):
@@ -1254,7 +1275,7 @@ def main(tier: str, seed: int, replay: str | None = None) -> int:
                 "biased towards compound parameters in non-final positions, alias texts, damaged/re-spaced texts, "
                 "raw and damaged URIs, an insertion history for Language.add with duplicate and reserved names, all "
                 "operator URIs; plus exhaustive enumerations over fixed small languages "
-                + ("(depth 2, and depth 3 over A,K/3 and A,F/1,G/2)" if tier == "quick" else "(depth 3)") + " and the witnesses of the refutation theorems. "
+                + ("(depth 2, and depth 3 over A,F/1,G/2)" if tier == "quick" else "(depth 3)") + " and the witnesses of the refutation theorems. "
                 "non-trivial = a URI case whose type has a compound parameter followed by further parameters, a text "
                 "case with a product whose left operand is a compound type, or an alias text",
         "samples": st.samples, "input_distribution": st.dist,
